@@ -197,6 +197,9 @@ class _SVD:
             }
             solver_kwargs.setdefault("compute", False)
             solver_kwargs.setdefault("n_power_iter", 4)
+            # Power iterations without re-orthonormalisation lose every direction whose
+            # singular value is small compared to the leading one
+            solver_kwargs.setdefault("iterator", "QR")
             U, s, VT = self._svd(X, dask_svd, solver_kwargs)
         else:
             err_msg = (
